@@ -43,6 +43,9 @@ type c19Case struct {
 }
 
 func (c c19Case) sig() string {
+	if len(c.Records) > 20 {
+		return fmt.Sprintf("header=%q records=%d generated records (i, i mod 7) output-present=%v", c.Header, len(c.Records), c.Present)
+	}
 	if c.Raw != "" {
 		return fmt.Sprintf("raw=%q output-present=%v", c.Raw, c.Present)
 	}
@@ -183,9 +186,11 @@ func c19Check(ctx *rt.Ctx, c c19Case) (viol string) {
 }
 
 type c19Args struct {
-	Cols    int  `json:"cols"`
-	Records int  `json:"records"`
-	Sub     bool `json:"sub"` // 3-field sub-alphabet
+	Cols    int    `json:"cols"`
+	Records int    `json:"records"`
+	Sub     bool   `json:"sub"`    // 3-field sub-alphabet
+	Family  string `json:"family"` // "" | prefix | large
+	N       int    `json:"n"`
 }
 
 func c19HeaderChoices(cols int) [][]string {
@@ -233,6 +238,34 @@ func c19Worker(ctx *rt.Ctx, job *rt.Job) []*rt.Violation {
 			return false
 		}
 		return true
+	}
+	switch a.Family {
+	case "prefix":
+		// prefix-related column names whose name+field concatenations coincide: 2 records, every field combination
+		fl := []string{"", "a", "b", "bc", "c"}
+		for _, h := range [][]string{{"A", "Ab"}, {"", "A"}} {
+			for _, f1 := range fl {
+				for _, f2 := range fl {
+					for _, f3 := range fl {
+						for _, f4 := range fl {
+							if !run(c19Case{Header: h, Records: [][]string{{f1, f2}, {f3, f4}}}) {
+								return vs
+							}
+						}
+					}
+				}
+			}
+		}
+		return vs
+	case "large":
+		// record counts on both sides of the big writer's 1000-row commits and the in-memory writer's 1000-value batches
+		c := c19Case{Header: []string{"id", "K"}}
+		for i := 0; i < a.N; i++ {
+			c.Records = append(c.Records, []string{fmt.Sprint(i), fmt.Sprint(i % 7)})
+		}
+		n = job.Shard // run regardless of sharding
+		run(c)
+		return vs
 	}
 	if a.Cols == 0 {
 		// malformed inputs and pre-existing outputs
@@ -316,6 +349,10 @@ func c19Run(ctx *rt.Ctx) []*rt.Violation {
 		}
 	}
 	add(c19Args{Cols: 0}, 1)
+	add(c19Args{Family: "prefix"}, 8)
+	for _, n := range []int{2001, 1002, 1001, 1000, 999} {
+		add(c19Args{Family: "large", N: n}, 1)
+	}
 	if ctx.Thorough() {
 		add(c19Args{Cols: 2, Records: 2}, 32)
 		add(c19Args{Cols: 2, Records: 3, Sub: true}, 16)
